@@ -414,7 +414,8 @@ def write_evidence(prop: str, tier: str, seed: int, stats: Stats, mod: Any, wall
         "wall_s": round(wall, 3),
         "violations": int(nviol),
     }
-    path = os.path.join(VERIF_DIR, "evidence", f"{prop}.json")
+    # (tools that run a check against a deliberately broken tree redirect its evidence away from /verif/evidence)
+    path = os.path.join(os.environ.get("VERIF_EVIDENCE_DIR") or os.path.join(VERIF_DIR, "evidence"), f"{prop}.json")
     os.makedirs(os.path.dirname(path), exist_ok=True)
     tmp = path + ".tmp"
     with open(tmp, "w") as f:
